@@ -9,6 +9,8 @@ open CaddyModel.C11
 #print axioms only_catchAll_when_no_certs
 #print axioms redirect_on_every_https_interface
 #print axioms redirect_position
+#print axioms served_redirect_port_rule
+#print axioms user_host_route_answers
 #print axioms redirect_port_deterministic
 #print axioms redirect_sources_deterministic
 #print axioms old_code_order_independent_part
